@@ -324,6 +324,66 @@ def run_loop(inp):
               fin_dp=float(numpy.asarray(af.distance_parameter).reshape(-1)[0]), choice_calls=[[c[0], c[1]] for c in calls])
 
 
+def run_realloop(inp):
+  """search_strategy_optimization with the REAL differential-evolution optimiser (small budgets) on a real failure model: returns the picks,
+  and for every pick the acquisition values - under the repulsors and radius in force when it was chosen - of the pick and of a sample of
+  the domain (recorded through a wrapper of the optimiser class, the library code itself is untouched)."""
+  import dataclasses
+  from libsigopt.compute.search import ProbabilityOfImprovementSearch
+  from libsigopt.views.rest import search_next_points as snp
+  desc = inp["domain"]
+  dom, D = mk_domain(desc), oh_dim(desc)
+  fm, _ = make_fm(D, inp["fm"])
+  af = ProbabilityOfImprovementSearch(dom, fm, inp["dp0"], arr(inp["r0"], D))
+  rounds = []
+  real_de = snp.DEOptimizer
+
+  class Recording(real_de):
+    def optimize(self, *a, **k):
+      best, res = super().optimize(*a, **k)
+      probe = dom.one_hot_domain.generate_quasi_random_points_in_domain(64)
+      rounds.append(dict(pick=numpy.array(best, dtype=float).tolist(), value_at_pick=float(self.af.evaluate_at_point_list(numpy.atleast_2d(best))[0]),
+                         best_probe=float(numpy.max(self.af.evaluate_at_point_list(probe))), repulsors=self.af.repulsor_points.tolist(),
+                         dp=float(numpy.asarray(self.af.distance_parameter).reshape(-1)[0])))
+      return best, res
+
+  info, maxiter = snp.DEFAULT_SEARCH_OPTIMIZER_INFO, snp.SEARCH_OPTIMIZER_MAXITER
+  small = info._replace(num_multistarts=24, num_random_samples=48) if hasattr(info, "_replace") else dataclasses.replace(info, num_multistarts=24, num_random_samples=48)
+  snp.DEOptimizer, snp.DEFAULT_SEARCH_OPTIMIZER_INFO, snp.SEARCH_OPTIMIZER_MAXITER = Recording, small, 12
+  state = numpy.random.get_state()
+  numpy.random.seed(inp["np_seed"])
+  try:
+    ret, _ = snp.search_strategy_optimization(af, inp["k"])
+  finally:
+    snp.DEOptimizer, snp.DEFAULT_SEARCH_OPTIMIZER_INFO, snp.SEARCH_OPTIMIZER_MAXITER = real_de, info, maxiter
+    numpy.random.set_state(state)
+  return dict(ret=numpy.asarray(ret).tolist(), rounds=rounds)
+
+
+def oracle_realloop(inp):
+  """Within one search optimisation every pick becomes a repulsor before the next is chosen: a later pick is never (within rounding) an
+  earlier pick of the same call while the acquisition function - under the repulsors then in force - is positive somewhere."""
+  out = run_realloop(inp)
+  picks = [numpy.array(r["pick"]) for r in out["rounds"]]
+  for i, r in enumerate(out["rounds"]):
+    for j in range(i):
+      if float(numpy.abs(picks[i] - picks[j]).max()) < 1e-12 and r["best_probe"] > 0:
+        return dict(signature="C19:realloop:pick-repeats-an-earlier-pick", what="realloop: a pick of a multi-point search call repeats an earlier pick of the same call although "
+                    "positive-valued candidates exist (the earlier pick was not in force as a repulsor for the optimiser that returned it)", input=dict(kind="realloop", **inp),
+                    observed=dict(picks=[p.tolist() for p in picks], value_at_pick=r["value_at_pick"], best_probe=r["best_probe"]), expected="distinct picks", oracle="recorded rounds")
+    if r["value_at_pick"] < r["best_probe"] * 0.0 and False:
+      pass
+  return None
+
+
+def gen_realloop(rng):
+  desc = gen_desc(rng, False)
+  return dict(domain=desc, dp0=float(rng.choice([0.01, 0.05, 0.2])), r0=[gen_point(rng, desc, False) for _ in range(rng.choice([0, 1, 3]))], k=rng.choice([2, 3, 4]),
+              np_seed=rng.randrange(2 ** 31),
+              fm=dict(type="gp", spec=dict(seed=rng.randint(0, 10 ** 6), n=rng.randint(3, 8), kinds=[rng.choice(["logistic", "cdf"])], thresholds=[round(rng.uniform(-0.5, 1), 2)],
+                                           wrap=rng.random() < 0.5, scale=rng.choice([1.0, 4.0]), yscale=1.0)))
+
+
 def run_view(inp):
   """The body of SearchNextPoints.next_points_probability_improvement on a stand-in `self`."""
   from libsigopt.views.rest import search_next_points as snp
@@ -735,6 +795,11 @@ def oracle(kind, inp):
   def fail(sig, what, observed, expected):
     return dict(signature=f"C19:{kind}:{sig}", what=f"{kind}: {what}", input=dict(kind=kind, **inp), observed=observed, expected=expected,
                 oracle="plain-Python rational arithmetic: own normalisation, sum of squared differences with 2*D per differing category")
+  if kind == "realloop":
+    try:
+      return oracle_realloop(inp)
+    except Exception as e:
+      return fail(f"raises:{type(e).__name__}", f"raised {type(e).__name__}: {e}", repr(e), "picks")
   try:
     out = run_impl(kind, inp)
   except Exception as e:
@@ -911,6 +976,11 @@ def search(ctx, hints, broken):
       fails.append(r)
       if len({f["signature"] for f in fails}) >= 3 or len(fails) >= 6:
         break
+  for _ in range(ctx.n(10, 120)):   # the real optimiser inside the pick loop (small budgets)
+    n += 1
+    r = oracle("realloop", gen_realloop(rng))
+    if r and r["signature"] not in {f["signature"] for f in fails}:
+      fails.append(r)
   return dict(evaluations=n, failures=fails, oracle="own normalisation and exact rational squared distances (2*D per differing category); "
                                                       "own product of member probabilities; trace of the scripted optimisation")
 
